@@ -348,6 +348,15 @@ func compareOutcome(proto string, op wire.Op, o Obs, e Expect) string {
 		}
 		return cmpVal(o.Values[0], e.Hits[0])
 	case "get":
+		if o.Status == "ok" {
+			// the reply ends the way the protocol says: one END line, one NOOP reply
+			if proto == "text" && o.Term != 1 {
+				return fmt.Sprintf("text get answered with %d END lines; client saw %s", o.Term, o)
+			}
+			if proto == "bin" && op.Noop && o.Term != 1 {
+				return fmt.Sprintf("quiet batch closed by NOOP got %d NOOP replies; client saw %s", o.Term, o)
+			}
+		}
 		if o.Status != "ok" {
 			return fmt.Sprintf("reference map: get answers %d hits; client saw %s", len(e.Hits), o)
 		}
